@@ -211,6 +211,17 @@ def invalid_name_cases():
           'ErrorMessage': lambda **k: message.ErrorMessage(k.get('error_name', 'a.b'), 1, destination=k.get('destination'))}
     takes = {'MethodCallMessage': ('path', 'member', 'interface', 'destination'), 'SignalMessage': ('path', 'member', 'interface', 'destination'),
              'MethodReturnMessage': ('destination',), 'ErrorMessage': ('error_name', 'destination')}
+    # a field the message type requires is not left out either
+    for what, mkf in (('MethodCallMessage without a path', lambda: message.MethodCallMessage(None, 'M')), ('SignalMessage without a path', lambda: message.SignalMessage(None, 'M', 'a.b')),
+                      ('MethodCallMessage without a member', lambda: message.MethodCallMessage('/p', None)), ('SignalMessage without an interface', lambda: message.SignalMessage('/p', 'M', None)),
+                      ('ErrorMessage without a name', lambda: message.ErrorMessage(None, 1))):
+        try:
+            mkf()
+        except MarshallingError:
+            continue
+        except Exception as e:
+            return '%s raised %s instead of MarshallingError' % (what, type(e).__name__)
+        return '%s was constructed' % what
     for cls, fields in takes.items():
         for f in fields:
             for v in bad[f]:
